@@ -8,7 +8,10 @@ no longer be located is reported in anchors_missing (a broken tie for the
 properties that use it); the previous value is NOT reused — the definition is
 emitted as an empty/zero value so dependent lemmas fail visibly.
 
-Pure stdlib; anchors are located by item name and brace matching, not by line.
+Pure stdlib; anchors are located by item name and brace matching, not by line, and are read with the syntax-aware
+helpers below (DESIGN.md §13): the generated value depends on what the source DENOTES (the byte set of a predicate, the
+arms of a match, the value of a literal), not on how it is spelled.  tools/translator_selftest.py checks both directions:
+a behaviour-preserving patch must leave Generated.v byte-identical, a list of one-token behaviour changes must not.
 """
 import json, os, re, sys, hashlib
 
@@ -95,43 +98,23 @@ ESC = {"n": 10, "r": 13, "t": 9, "0": 0, "\\": 92, "'": 39, '"': 34}
 
 
 def lit(tok):
-    """value of a Rust integer / byte literal token"""
-    tok = tok.strip()
-    m = re.fullmatch(r"b'(\\x[0-9a-fA-F]{2}|\\.|[^'\\])'", tok)
-    if m:
-        c = m.group(1)
-        if c.startswith("\\x"):
-            return int(c[2:], 16)
-        if c.startswith("\\"):
-            return ESC[c[1]]
-        return ord(c)
-    tok = re.sub(r"(_?(u8|u16|u32|u64|usize|i8|i16|i32|i64|isize))$", "", tok).replace("_", "")
-    if tok.lower().startswith("0x"):
-        return int(tok, 16)
-    if tok.lower().startswith("0b"):
-        return int(tok, 2)
-    return int(tok)
-
-
-LIT = r"(?:b'(?:\\x[0-9a-fA-F]{2}|\\.|[^'\\])'|0x[0-9a-fA-F_]+|\d[\d_]*)"
+    """value of a Rust integer / byte literal token (alias of int_value, kept for the area extractors)"""
+    return int_value(tok)
 
 
 def lits(s):
-    return [lit(t) for t in re.findall(LIT, s)]
+    return [int_value(t) for t in re.findall(BYTE, s)]
 
 
 def alt_set(pat):
-    """'0 | 9 | b'a' ..= b'c'' -> sorted list of byte values"""
+    """'0 | 9 | b'a' ..= b'c'' -> list of byte values in source order (see pattern_set for the set)"""
     vals = []
-    for part in pat.split("|"):
-        part = part.strip()
-        if not part:
-            continue
-        m = re.fullmatch(r"(" + LIT + r")\s*\.\.=\s*(" + LIT + r")", part)
+    for part in split_top(pat, "|"):
+        m = re.fullmatch(r"(" + BYTE + r")\s*\.\.=\s*(" + BYTE + r")", part)
         if m:
-            vals.extend(range(lit(m.group(1)), lit(m.group(2)) + 1))
+            vals.extend(range(int_value(m.group(1)), int_value(m.group(2)) + 1))
         else:
-            vals.append(lit(part))
+            vals.append(int_value(part))
     return vals
 
 
@@ -232,6 +215,9 @@ INT_SUFFIX = r"(?:_?(?:u8|u16|u32|u64|u128|usize|i8|i16|i32|i64|i128|isize))?"
 # any Rust spelling of an integer / byte literal token
 BYTE = (r"(?:b'(?:\\x[0-9a-fA-F]{2}|\\.|[^'\\])'|0x[0-9a-fA-F_]+" + INT_SUFFIX + r"|0o[0-7_]+" + INT_SUFFIX +
         r"|0b[01_]+" + INT_SUFFIX + r"|\d[\d_]*" + INT_SUFFIX + r")")
+
+
+LIT = BYTE      # old name
 
 
 def int_value(text):
@@ -756,19 +742,39 @@ def min_consts(body, operand=r"[\w.]+(?:\(\))?"):
         out.append((m.group(2), int_value(m.group(1)), m.start()))
     for m in re.finditer(r"(" + operand + r"|\([^()]*\))\s*\.min\(\s*(" + BYTE + r")\s*\)", body):
         out.append((strip_parens(m.group(1)), int_value(m.group(2)), m.start()))
+    for m in re.finditer(r"(?<!\w)(?<!\w\.)(" + BYTE + r")\s*\.min\(\s*(" + operand + r")\s*\)", body):
+        out.append((m.group(2), int_value(m.group(1)), m.start()))
     out.sort(key=lambda t: t[2])
     return [(a, b) for a, b, _ in out]
 
 
 def closures(body, method):
-    """[(parameter text, expression text)] of every `.method(|params| expr)` call in body"""
+    """[(parameter text, expression text)] of every `.method([args,] |params| expr)` call in body"""
     out = []
-    for m in re.finditer(r"\.\s*" + method + r"\s*\(\s*(?:move\s+)?\|", body):
-        o = body.rindex("(", m.start(), m.end())
-        c = close_of(body, o)
-        inner = body[m.end():c]
-        bar = inner.index("|")
-        out.append((inner[:bar].strip(), inner[bar + 1:].strip()))
+    for m in re.finditer(r"\.\s*" + method + r"\s*\(", body):
+        o = m.end() - 1
+        inner = body[o + 1:close_of(body, o)]
+        # the first top-level `|` opens the parameter list
+        i, depth, bars = 0, 0, []
+        while i < len(inner) and len(bars) < 2:
+            k = skip_literal(inner, i)
+            if k is not None:
+                i = k
+                continue
+            c = inner[i]
+            if c in OPEN:
+                depth += 1
+            elif c in CLOSE:
+                depth -= 1
+            elif c == "|" and (depth == 0 or bars):
+                bars.append(i)
+            i += 1
+        if len(bars) < 2:
+            continue
+        lead = inner[:bars[0]].strip()
+        if lead and not lead.endswith(",") and lead != "move":
+            continue                                    # `a | b` inside an ordinary argument, not a closure
+        out.append((inner[bars[0] + 1:bars[1]].strip(), inner[bars[1] + 1:].strip()))
     return out
 
 
@@ -848,12 +854,21 @@ def pred_fn_set(src, name):
     return byte_set(b, v, src, body=b)
 
 
-def contains_bytes(body, src=""):
-    """the bytes of RECEIVER in the (single) `RECEIVER.contains(x)` of body: a b"…" literal, an array, or a const / let"""
-    ms = re.findall(r'(b"(?:\\.|[^"\\])*"|&?\[[^\]]*\]|\b[A-Za-z_]\w*)\s*\.contains\(', body)
-    if len(ms) != 1:
-        raise ValueError("expected one .contains(), found %d" % len(ms))
-    return byte_string(ms[0], body, src)
+def option_pred_set(body, src=""):
+    """the set of bytes accepted by the predicate applied to an Option<&u8> in body: `.map(|b| P(b)).unwrap_or(false)`,
+    `.map_or(false, |b| P(b))`, `.is_some_and(|b| P(b))`, `.filter(|b| P(b)).is_some()`"""
+    found = []
+    for method in ("map", "map_or", "is_some_and", "filter"):
+        for params, expr in closures(body, method):
+            found.append((method, params, expr))
+    if len(found) != 1:
+        raise ValueError("expected one predicate closure, found %d" % len(found))
+    method, params, expr = found[0]
+    if method == "map" and not re.search(r"\.unwrap_or\(\s*false\s*\)", body):
+        raise ValueError(".map(..) without .unwrap_or(false)")
+    if method == "filter" and not re.search(r"\.is_some\(\)", body):
+        raise ValueError(".filter(..) without .is_some()")
+    return byte_set(expr, closure_var(params), src, body=body)
 
 
 def hex_nibble_tables(b):
@@ -923,10 +938,6 @@ def variant_pred(expr, variants):
             raise ValueError("match is not exhaustive")
         return out, m.group(1)
     raise ValueError("variant predicate not understood: %r" % e[:60])
-
-
-def norm_ws(s):
-    return re.sub(r"\s+", "", s)
 
 
 class Gen:
